@@ -353,17 +353,6 @@ def cw_field(widths):
     return ",".join("%d:%d" % (cp, w) for cp, w in sorted(widths.items())) or "-"
 
 
-class ImplInfo:
-    """Per configuration: format items / separator data as parsed by the implementation."""
-
-    def __init__(self):
-        self.items = {}
-        self.sep = {}
-
-    def key(self, args):
-        return tuple(args)
-
-
 def pool_texts():
     return AUTHORS_CLEAN + AUTHORS_ACCENT + AUTHORS_WIDE + AUTHORS_ONE + CODE_WORDS + [f for f in FILES if f] + [BAR] + \
         [f for f in BLAME_FORMATS if f] + [s[0] for s in SEP_FORMATS if s[0]]
@@ -778,7 +767,11 @@ def eval_binary(ctx, rep, case, res, mdl_resp=None, model_checked=None):
     cls = classify(case["items"])
     tab = 8 if case["tab"] is None else case["tab"]
     replay = dict(kind="binary", args=args, via=case["via"], stdin_b64=b64(("\n".join(lines) + "\n").encode()),
-                  lines=lines, cls=cls)
+                  lines=lines, cls=cls,
+                  spec=dict(items=[dict(commit=it["attr"].commit, author=it["attr"].author, ts=it["attr"].ts,
+                                        file=it["attr"].file, n=it["n"], code=it["code"], git=it["git"]) for it in case["items"]],
+                            pal=case["pal"], fmt=case["fmt"], sep=SEP_FORMATS.index(case["sep"]), tab=case["tab"],
+                            pads=case["pads"]))
     rep.case(key=("binary", tuple(args), tuple(lines), case["via"]),
              nontrivial=len({it["attr"].tup() for it in case["items"]}) >= 2 and len(lines) >= 3,
              sample=dict(op="binary", args=args, via=case["via"], lines=lines[:4], rc=rc, out=out[:200].decode("utf-8", "replace")))
@@ -916,7 +909,22 @@ def run(ctx, rep):
 def replay(ctx, rep, obj):
     case = obj.get("case", obj)
     kind = case.get("kind")
-    if kind == "binary":
+    if kind == "binary" and "spec" in case:
+        sp = case["spec"]
+        attrs = {}
+        items = []
+        for it in sp["items"]:
+            a = attrs.setdefault((it["commit"], it["author"], it["ts"], it["file"]),
+                                 Attr(it["commit"], it["author"], it["ts"], it["file"]))
+            items.append(dict(attr=a, n=it["n"], code=it["code"], git=it["git"]))
+        c = dict(cls=case.get("cls"), items=items, pal=sp["pal"], fmt=sp["fmt"], sep=SEP_FORMATS[sp["sep"]], tab=sp["tab"],
+                 via=case.get("via", "stdin"), pads=[tuple(x) for x in sp["pads"]])
+        res = run_binary_case(ctx, c, BUILD, 999999)
+        print("rc", res[0])
+        print(res[1].decode("utf-8", "replace"))
+        print(res[2].decode("utf-8", "replace")[:600])
+        eval_binary(ctx, rep, c, res)
+    elif kind == "binary":
         import base64
         data = base64.b64decode(case["stdin_b64"])
         args = case["args"]
